@@ -370,7 +370,8 @@ def find_shortest_path(
     while fifo:
         node, path = fifo.popleft()
         visited.add(node)
-        for adjascent_node in graph[node] - visited:
+        # .get(): do not let a defaultdict graph grow while it is searched
+        for adjascent_node in graph.get(node, set()) - visited:
             if adjascent_node == end:
                 return path + [adjascent_node]
             else:
@@ -410,7 +411,11 @@ def find_connected_nodes(
 
     for node in graph[start]:
         if node not in visited:
-            find_connected_nodes(graph, node, visited)
+            if node in graph:
+                find_connected_nodes(graph, node, visited)
+            else:
+                # a node without outgoing edges is still connected to start
+                visited.add(node)
 
     return visited
 
